@@ -13,8 +13,16 @@ def load_contracts(modnames):
         mod = importlib.import_module(m)
         if not isinstance(getattr(mod, 'CONTRACTS', None), dict) or getattr(mod, 'NOT_PYVC', False):
             continue          # other tiers (uf mode, effects) keep their contracts in their own format
-        contracts.update(mod.CONTRACTS)
-        models.update(getattr(mod, 'CLASSMODELS', {}))
+        for k, c in mod.CONTRACTS.items():
+            if k in contracts and contracts[k] != c:
+                # contract keys are global: a second, different contract for the same function would silently replace the
+                # first one in every proof that uses it
+                raise RuntimeError('two different contracts for {} (second one in {})'.format(k, m))
+            contracts[k] = c
+        for k, c in getattr(mod, 'CLASSMODELS', {}).items():
+            if k in models and models[k] != c:
+                raise RuntimeError('two different class models named {} (second one in {})'.format(k, m))
+            models[k] = c
     return contracts, models
 
 
